@@ -1,4 +1,4 @@
-CONSTANTS Keys = {1, 2, 3}  Powers = {0, 1, 2}  MaxTxs = 2  MaxBlocks = 2  PostAspen = TRUE  AllowUpgrade = FALSE
+CONSTANTS Keys = {1, 2, 3}  Powers = {0, 1, 2}  MaxTxs = 2  MaxBlocks = 4  PostAspen = FALSE  AllowUpgrade = TRUE
 INIT Init
 NEXT Next
 INVARIANTS MirrorOrKnown BatchApplicableOrKnown NeverEmptyOrKnown
